@@ -475,6 +475,28 @@ pub fn entries() -> Vec<Entry> {
 		en.items = send_raw.to_string();
 		v.push(en);
 	}
+	// no guard or key-less lock reference can be duplicated: a copy would release a second time, or outlive the hold
+	let guard_items = "fn need_clone_t<T: Clone>() {}\nfn need_copy_t<T: Copy>() {}\ntype MRef = happylock::mutex::MutexRef<'static, i32, parking_lot::RawMutex>;\ntype RRef = happylock::rwlock::RwLockReadRef<'static, i32, parking_lot::RawRwLock>;\ntype WRef = happylock::rwlock::RwLockWriteRef<'static, i32, parking_lot::RawRwLock>;\n";
+	for (prop, name, ty) in [
+		("C15", "MutexRef", "MRef"),
+		("C15", "RwLockReadRef", "RRef"),
+		("C15", "RwLockWriteRef", "WRef"),
+		("C15", "PoisonRef<MutexRef>", "PoisonRef<'static, MRef>"),
+		("C15", "PoisonRef<RwLockReadRef>", "PoisonRef<'static, RRef>"),
+		("C14", "MutexGuard", "happylock::mutex::MutexGuard<'static, i32, parking_lot::RawMutex>"),
+		("C14", "RwLockReadGuard", "happylock::rwlock::RwLockReadGuard<'static, i32, parking_lot::RawRwLock>"),
+		("C14", "RwLockWriteGuard", "happylock::rwlock::RwLockWriteGuard<'static, i32, parking_lot::RawRwLock>"),
+		("C14", "LockGuard<(MutexRef, RwLockReadRef)>", "LockGuard<(MRef, RRef)>"),
+		("C14", "LockGuard<Box<[RwLockReadRef]>>", "LockGuard<Box<[RRef]>>"),
+		("C14", "PoisonGuard<RwLockReadRef>", "PoisonGuard<'static, RRef>"),
+		("C14", "ThreadKey", "ThreadKey"),
+	] {
+		for (tr, f) in [("Clone", "need_clone_t"), ("Copy", "need_copy_t")] {
+			let mut en = e(prop, "duplicate-a-guard", &format!("{}: {}", name, tr), "", &format!("\t{}::<{}>();", f, ty), &format!("\t{}::<i32>();", f), "", &["E0277"]);
+			en.items = guard_items.to_string();
+			v.push(en);
+		}
+	}
 	for (i, en) in v.iter_mut().enumerate() {
 		en.id = format!("{}-{:03}", en.prop, i);
 	}
